@@ -21,7 +21,7 @@ type C15Case struct {
 }
 
 var c15Kinds = []string{"absent", "present-valid", "present-garbage", "unwritable-EACCES", "unwritable-EROFS",
-	"dir-at-output", "log-unwritable", "log-is-dir", "mid-write", "stat-src-error", "open-EMFILE", "commit-error", "output-links-to-setup", "stdout-unwritable", "interrupted", "go-tool-failing"}
+	"dir-at-output", "log-unwritable", "log-is-dir", "mid-write", "stat-src-error", "open-EMFILE", "commit-error", "output-links-to-setup", "stdout-unwritable", "interrupted", "go-tool-failing", "log-device-full", "output-dangling-link"}
 
 var outVariants = []string{"same-dir", "subdir", "other-pkg", "outside", "parent-missing", "abs-same-dir", "dotdot-outside"}
 
@@ -178,6 +178,28 @@ func genC15(cfg Config, ws *WorldSet, i, perWorld int) C15Case {
 					sim.Fault{Op: "OUTPUT-OPEN", Path: iv.OutPath, Kind: sig})
 			default:
 				plan.Faults = append(plan.Faults, sim.Fault{Op: "OUTPUT-OPEN", Path: iv.OutPath, Kind: sig})
+			}
+		case "log-device-full":
+			// the log opens, but nothing can be written to it (its name is a link to
+			// /dev/full: ENOSPC on every write). Whether that makes the run fail is the
+			// tree's business; if it fails, the output path must be as it was
+			if r.Bool() {
+				present()
+			}
+			if iv.Log {
+				steps = append(steps, Step{Op: "symlink", Path: logPathFor(iv.OutPath), Data: []byte("/dev/full")})
+			}
+		case "output-dangling-link":
+			// the output path is a symbolic link whose target cannot be created (its
+			// directory does not exist), or can but the open fails: the link itself is
+			// what "the output path" held before, and a failed run leaves it there
+			if r.Bool() || physCwd != cwd {
+				// (also whenever the module is entered through a link: the injected open
+				// error is keyed by the physical path and must not be missed here)
+				steps = append(steps, Step{Op: "symlink", Path: iv.OutPath, Data: []byte("{W}/nowhere/generated.go")})
+			} else {
+				steps = append(steps, Step{Op: "symlink", Path: iv.OutPath, Data: []byte("{W}/outside/generated_elsewhere.go")})
+				plan.Faults = append(plan.Faults, sim.Fault{Op: "OUTPUT-OPEN", Path: iv.OutPath, Kind: "open_err", Errno: sim.Pick(r, []string{"EACCES", "EROFS", "ENOSPC"})})
 			}
 		case "go-tool-failing":
 			// the subprocess convergen depends on (go list, go env) is the one part of
